@@ -21,7 +21,8 @@ ASSUMPTIONS = [
     "eigsh residual tolerance 1e-7 relative; rigid-motion invariance 1e-7 relative",
 ]
 
-CLASSES = ["hexahedron", "tetra", "hexahedron20", "quad-planestrain", "quad8-planestrain", "triangle-planestrain", "mixed-hexahedron", "neo-hooke-at-rest"]
+CLASSES = ["hexahedron", "tetra", "hexahedron20", "quad-planestrain", "quad8-planestrain", "triangle-planestrain", "mixed-hexahedron", "neo-hooke-at-rest",
+           "quad-axisymmetric", "quad8-axisymmetric"]
 
 
 def fl(lo, hi, nd=3):
@@ -41,9 +42,10 @@ def strategy(cls, tier):
 
 
 def model(fem, cls, case, transform=None):
-    dim = 2 if "planestrain" in cls else 3
+    dim = 2 if ("planestrain" in cls or "axisymmetric" in cls) else 3
     nn = [max(3, k) for k in case["n"]] if cls == "mixed-hexahedron" else case["n"]  # ARPACK needs a few cells when the mass matrix is singular (dual fields)
-    mesh = (fem.Rectangle if dim == 2 else fem.Cube)(b=tuple(case["size"][:dim]), n=tuple(nn[:dim]))
+    a0 = (0.0, (0.0, 0.3, 1.1)[case["seed"] % 3]) if "axisymmetric" in cls else (0.0,) * dim  # ring at a drawn distance from the axis
+    mesh = (fem.Rectangle if dim == 2 else fem.Cube)(a=tuple(a0), b=tuple(np.array(a0) + np.array(case["size"][:dim])), n=tuple(nn[:dim]))
     X = np.array(mesh.points)
     if case["jitter"]:
         lo, hi = X.min(0), X.max(0)
@@ -71,7 +73,7 @@ def model(fem, cls, case, transform=None):
         for ax in range(dim):
             mesh = mesh.translate(move=transform["shift"][ax], axis=ax)
     R = {"hexahedron": fem.RegionHexahedron, "tetra": fem.RegionTetra, "hexahedron20": fem.RegionQuadraticHexahedron, "quad-planestrain": fem.RegionQuad,
-         "quad8-planestrain": fem.RegionQuadraticQuad, "triangle-planestrain": fem.RegionTriangle, "mixed-hexahedron": fem.RegionHexahedron,
+         "quad8-planestrain": fem.RegionQuadraticQuad, "triangle-planestrain": fem.RegionTriangle, "quad-axisymmetric": fem.RegionQuad, "quad8-axisymmetric": fem.RegionQuadraticQuad, "mixed-hexahedron": fem.RegionHexahedron,
          "neo-hooke-at-rest": fem.RegionHexahedron}[cls]
     if cls.startswith("tetra"):
         region = R(mesh, quadrature=fem.TetrahedronQuadrature(order=2))  # the 1-point default rule gives a singular mass matrix
@@ -83,6 +85,9 @@ def model(fem, cls, case, transform=None):
     if cls == "mixed-hexahedron":
         fc = fem.FieldsMixed(region, n=3)
         um = fem.ThreeFieldVariation(fem.NeoHooke(mu=E / (2 * (1 + nu)), bulk=E / (3 * (1 - 2 * nu))))
+    elif "axisymmetric" in cls:
+        fc = fem.FieldContainer([fem.FieldAxisymmetric(region, dim=2)])
+        um = fem.LinearElastic(E=E, nu=nu)
     elif dim == 2:
         fc = fem.FieldContainer([fem.FieldPlaneStrain(region, dim=2)])
         um = fem.LinearElastic(E=E, nu=nu)
@@ -184,6 +189,12 @@ def check(cls, case, rec):
     if cls == "mixed-hexahedron":
         # scipy draws ARPACK's start vector from the global RNG; fixed here so that a case is a pure function of its data
         kw["v0"] = np.random.default_rng(case["seed"]).uniform(-1, 1, len(dof1))
+    sigma = 0
+    if case["seed"] % 5 == 0 and cls != "mixed-hexahedron":
+        # a user-chosen spectral shift (handed through to the eigensolver)
+        sigma = -1e-2 * case["E"] / (rho * max(case["size"][:dim]) ** 2)
+        kw["sigma"] = sigma
+        rec.label("sigma-keyword")
     if case["seed"] % 2:
         job = fem.FreeVibration(items, bounds).evaluate(k=k, solver=recording_solver, **kw)
         K11s, M11s = K[dof1][:, dof1], M[dof1][:, dof1]
@@ -191,7 +202,7 @@ def check(cls, case, rec):
         if ok:
             rec.close("solver-receives-K11", float(abs(seen["A"] - K11s).max()) / float(abs(K11s).max()), 1e-13)
             rec.close("solver-receives-M11", float(abs(seen["M"] - M11s).max()) / float(abs(M11s).max()), 1e-13)
-        rec.require("solver-receives-k-and-shift", seen["kw"].get("k") == k and seen["sigma"] == 0, [seen["kw"], seen["sigma"]])
+        rec.require("solver-receives-k-and-shift", seen["kw"].get("k") == k and seen["sigma"] == sigma, [str(seen["kw"])[:80], seen["sigma"]])
     else:
         job = fem.FreeVibration(items, bounds).evaluate(k=k, **kw)
     lam = np.asarray(job.eigenvalues)
